@@ -39,6 +39,11 @@ CLAIMED = {
             "non-returning calls return to the enclosing function's sink, which is added (R4). A pure refactoring of normalize_basic stays silent (seeded negative control). The joint behaviour on arbitrary irregular "
             "inputs is not decided.",
             "3/C09", ""),
+    "C11": ("match tables of the three mnemonic conversions (patterns/constructed variants resolved by the compiler) compared by normalised name, injectivity and dispatch consistency; field provenance of every lifted operand vs. the P-Code operand convention; slot coverage of the implicit-RAM-access pass and of sub-register substitution",
+            "Decides the translation tables of the lifter: each P-Code mnemonic maps to the like-named IR operation, injectively and consistently with the dispatch (R1); operand positions follow the P-Code convention for "
+            "binary/unary/COPY/SUBPIECE/casts/LOAD/STORE and outputs with an address become Stores (R2); every operand slot (input0/1/2, indirect jump/call targets, all Expression slots of Def/Jmp) is lifted / substituted, "
+            "with distinct temporaries (R3). Block-level equivalence under register aliasing is not decided.",
+            "3/C11", ""),
     "C10": ("slot coverage derived from the Def/Jmp type definitions; gen/kill analysis of retain predicates (closure parameters, upvars) with sibling cross-check of the two transfer functions; match-table and path-condition polarity checks",
             "Decides the dataflow side conditions of the optimising passes: liveness makes every Expression slot of Def/Jmp alive and kills before it gens (R1); only Assign is deleted, only when "
             "not alive, iterating backwards (R2); both expression-propagation transfer functions kill, for Assign and Load, the entry keyed by the defined variable and all entries mentioning it, "
@@ -55,11 +60,21 @@ CLAIMED = {
             "the taint without warning, extern vs generic call handling including clobbering, return handling, register overwrite, that every stop after a positive taint test is paired with a warning, and one "
             "computation per configured source call with ordered dedup. The iff over all paths of all programs is not decided.",
             "3/C15", ""),
+    "C16": ("loop-shape and early-exit analysis of the shared call enumerators; pattern/variant analysis of the call match and map-membership test; one-record/one-warning counting; truth tables of CWE332/CWE426 decisions with provenance of looked-up names to configuration components and literals",
+            "Decides enumeration and decision shape of the syntactic call-site checkers: the enumerators visit every jump of every block, match exactly Jmp::Call by membership of the target in the symbol map and emit one record "
+            "per call; each checker emits one warning per record over all functions (R1); CWE332 warns iff generator (second pair component) present and initializer (first) absent, CWE426 iff the same function calls "
+            "system and a privileged function, fixed symbols are 'system'/'ioctl', name lookups are equality (R2); configured lists drive CWE676/CWE426 (R3). The warning multiset of a program is not decided.",
+            "3/C16", ""),
     "C17": ("match table over graph::Edge vs. the set of function-leaving edge kinds; path conditions of warning sites evaluated as a truth table over atoms; provenance of query arguments; panic-site audit against CFG construction facts",
             "Decides the traversal and decision tables of the reachability checkers: followed edge kinds (R1), sink/source tests and visited guard (R2), CWE367 start node and pair order, CWE243 "
             "warn-decision truth table over (chdir imported, successor exists, chdir reachable, calls chdir+privilege drop) (R3), and totality: no first-neighbour unwrap on BlkEnd nodes (R4). "
             "The set of warnings for a concrete program is not decided.",
             "3/C17", ""),
+    "C18": ("exact integer satisfying-set of is_chmod_style_arg (interval arithmetic over u64, statics resolved to their literal initialisers) compared with the set in the statement; equality/any-shape analysis of the pointer-size test; replay-shape analysis (fresh state, complete in-order loop, Def match table with argument positions); concrete-value gating of warnings",
+            "Decides the decision predicate and the replay shape of the constant-argument checkers: is_chmod_style_arg accepts exactly [0o200,0o776] U [0o1000,2^64-1] (equivalent spellings pass - seeded negative control), the "
+            "sizeof check compares a parameter for equality with the stack pointer register's size for any parameter (R1); the argument is computed on a fresh state replaying every Def of the call block in order with "
+            "the right operand positions, and a warning requires a single concrete value, otherwise a log (R2). That the replay computes the right constant is C01/C13 territory.",
+            "3/C18", ""),
     "C19": ("THIR condition extraction + symbolic normalisation; one-sided/inclusive boundary comparison rule with sibling cross-check; flag/name agreement; constructor field provenance",
             "Decides boundary, flag and byte-order agreement of the global-memory queries: every containment test of a point against a segment is `base <= p < base+len` (R1), "
             "read() yields unknown content exactly under write_flag and the *_writeable/*_readable queries return the like-named flag (R2), bytes are reversed iff little endian and "
@@ -82,6 +97,11 @@ CLAIMED = {
             "cwe_78::CWE_MODULE.name, LKM keeps exactly MODULES_LKM), no other mutation of the module list, every remaining module run once with config[module.name] (R2); partial filter by full-name equality with "
             "panic on unknown names (R3). Which warnings a selected check emits is not decided.",
             "3/C22", ""),
+    "C24": ("loop/condition shape of get_program_callgraph; resolved Direction constants of neighbors_directed/edges_directed per traversal (contradiction rule), start-node and visited/edge-set provenance; normal form of the result expression (iterated set, membership test, mapping)",
+            "Decides construction and direction agreement of the call-sequence query: every function is a node and every direct call to an internal function its own edge (self-calls included, parallel calls kept) (R1); "
+            "each traversal follows and collects in one direction, the two use opposite directions and start at source resp. target, expand on first visit, with separate visited and edge sets (R2); the result keeps an "
+            "edge of one set iff the other contains it and reports the call's tid, and the public entry passes source/target in order (R3). Exactness on a given graph is not decided.",
+            "3/C24", ""),
     "C25": ("statement-order analysis (Terminate before join); channel-end provenance in spawn(); classification of every exit of the receive loop by match arm / loop condition; match table over LogThreadMsg with the container operation per arm; container data flow into the result",
             "Decides the channel protocol from which delivery follows given a FIFO channel: Terminate is sent unconditionally before join on the channel handed out by get_msg_sender, the channel is unbounded "
             "and its receiver goes to the collector (R1); the collector uses blocking recv and leaves its loop only on Terminate/disconnect, skipping nothing (R2); address-less logs are pushed in order, located "
